@@ -1,13 +1,14 @@
 package updog
 
 import (
+	"encoding/binary"
 	"fmt"
-	"math/bits"
 	"sort"
 	"strings"
 	"time"
 
 	"github.com/RoaringBitmap/roaring"
+	"github.com/cespare/xxhash/v2"
 )
 
 // Query describes a count query to execute on an index. updog allows you to run
@@ -208,7 +209,25 @@ func (e *ExprEqual) String() string {
 }
 
 func (e *ExprEqual) cacheKey() uint64 {
-	return getValueIndex(e.Column, e.Value)
+	return mixCacheKey(tagEqual, getValueIndex(e.Column, e.Value))
+}
+
+const (
+	tagEqual = 'E'
+	tagNot   = 'N'
+	tagAnd   = 'A'
+	tagOr    = 'O'
+)
+
+// mixCacheKey derives the cache key of an expression node from its kind and the
+// cache keys of its operands, in order.
+func mixCacheKey(tag byte, keys ...uint64) uint64 {
+	buf := make([]byte, 1, 1+8*len(keys))
+	buf[0] = tag
+	for _, k := range keys {
+		buf = binary.BigEndian.AppendUint64(buf, k)
+	}
+	return xxhash.Sum64(buf)
 }
 
 type ExprNot struct {
@@ -239,14 +258,8 @@ func (e *ExprNot) String() string {
 	return fmt.Sprintf("(NOT %s)", e.Expr.String())
 }
 
-const (
-	maskNot = 0x87A9CD14CAEB50EB
-	maskAnd = 0xF9F1F5ADCB67A077
-	maskOr  = 0xBFB85A99B03E78E7
-)
-
 func (e *ExprNot) cacheKey() uint64 {
-	return bits.RotateLeft64(e.Expr.cacheKey(), 1) ^ maskNot
+	return mixCacheKey(tagNot, e.Expr.cacheKey())
 }
 
 type ExprAnd struct {
@@ -297,12 +310,12 @@ func (e *ExprAnd) String() string {
 }
 
 func (e *ExprAnd) cacheKey() uint64 {
-	key := uint64(maskAnd)
+	keys := make([]uint64, 0, len(e.Exprs))
 	for _, e := range e.Exprs {
-		key = key ^ bits.RotateLeft64(e.cacheKey(), 1)
+		keys = append(keys, e.cacheKey())
 	}
 
-	return key
+	return mixCacheKey(tagAnd, keys...)
 }
 
 type ExprOr struct {
@@ -353,10 +366,10 @@ func (e *ExprOr) String() string {
 }
 
 func (e *ExprOr) cacheKey() uint64 {
-	key := uint64(maskOr)
+	keys := make([]uint64, 0, len(e.Exprs))
 	for _, e := range e.Exprs {
-		key = key ^ bits.RotateLeft64(e.cacheKey(), 1)
+		keys = append(keys, e.cacheKey())
 	}
 
-	return key
+	return mixCacheKey(tagOr, keys...)
 }
